@@ -69,6 +69,9 @@ def generate(rng, tier):
     # a grep whose output is almost only trailing context / leading context of far-apart matches, cancelled the same way
     cases.append({"bb": "cancel", "cats": 1, "maxlen": 1048576, "grep": ["--regex", "L000000 ", "--after", "599000"]})
     cases.append({"bb": "cancel", "cats": 1, "maxlen": 1048576, "grep": ["--regex", "L0[0-5]0000 ", "--before", "900", "--after", "900"]})
+    # a single match deep in the file with a before-context far larger than every buffer on the way: the reader is blocked
+    # handing out BEFORE-context lines when the client goes away
+    cases.append({"bb": "cancel", "cats": 1, "maxlen": 1048576, "grep": ["--regex", "L300000 ", "--before", "250000"]})
     return cases
 
 
